@@ -157,3 +157,17 @@ Definition at_ymd_spec (c : cal) (y : Z) (m : Month) (d : Z) : Result Date DateE
        | Err e => Err e
        | Ok p => date_result c (jdn_of_ordinal c y (msum c y mz + p))
        end.
+
+(* ---- the two enums: names, abbreviations, numbers, neighbours (C15) *)
+Definition month_names_spec : list (string * string) :=
+  [("January", "Jan"); ("February", "Feb"); ("March", "Mar"); ("April", "Apr"); ("May", "May"); ("June", "Jun");
+   ("July", "Jul"); ("August", "Aug"); ("September", "Sep"); ("October", "Oct"); ("November", "Nov"); ("December", "Dec")]%string.
+Definition weekday_names_spec : list (string * string) :=
+  [("Monday", "Mon"); ("Tuesday", "Tue"); ("Wednesday", "Wed"); ("Thursday", "Thu"); ("Friday", "Fri");
+   ("Saturday", "Sat"); ("Sunday", "Sun")]%string.
+(* for the value numbered n: name, abbreviation, number, number0, number of the predecessor, of the successor *)
+Definition enum_q_spec (names : list (string * string)) (n : Z) : option (string * string * Z * Z * option Z * option Z) :=
+  match nth_error names (Z.to_nat (n - 1)) with
+  | Some (a, b) => Some (a, b, n, n - 1, (if n =? 1 then None else Some (n - 1)), (if n =? Z.of_nat (List.length names) then None else Some (n + 1)))
+  | None => None
+  end.
